@@ -230,6 +230,24 @@ Proof.
   - destruct Hin as [Hin|[]]. discriminate.
 Qed.
 
+(* every state along any sequence of prior_to_filtered / filtered_to_forecast / update *)
+Theorem kalman_ops_sym_psd n m k l (A C G Hm : Qmat) ops : forall st,
+  msym n (snd st) /\ mpsd n (snd st) ->
+  forall st', In (Some st') (kalman_ops n m k l A C G Hm st ops) -> msym n (snd st') /\ mpsd n (snd st').
+Proof.
+  induction ops as [|o r IH]; intros st HH st' Hin; simpl in Hin; [contradiction|].
+  destruct (kalman_op n m k l A C G Hm st o) as [s1|] eqn:E.
+  - assert (H1 : msym n (snd s1) /\ mpsd n (snd s1)).
+    { destruct o; simpl in E.
+      + eapply prior_to_filtered_sym_psd; eassumption.
+      + injection E as <-. now apply filtered_to_forecast_sym_psd.
+      + eapply update_sym_psd; eassumption. }
+    destruct Hin as [Hin|Hin].
+    + injection Hin as <-. exact H1.
+    + eapply IH; eassumption.
+  - destruct Hin as [Hin|[]]. discriminate.
+Qed.
+
 (* ---------------- stationary values *)
 Theorem kalman_stationary_fixed_point n m k l (A C G Hm Sinf Fi Kinf xhat y : Qmat) st' :
   is_inv k (kal_F n k G (outer k l Hm) Sinf) Fi ->
